@@ -152,7 +152,7 @@ class Net(object):
     # -- transport side
     def send(self, tr, node, message):
         x = tr.name
-        if tr is not self.transports.get(x):
+        if tr is not self.transports.get(x) or x in self.sim.zombies:
             return False        # zombie / destroyed incarnation
         CLOCK.advance(x, self.send_cost)
         y = self._resolve(x, node)
